@@ -38,7 +38,9 @@ META = {
         "exhaustive sub-run over every simple graph on <=5 nodes with each pair absent or of weight 1 or 2 (thorough: "
         "also all 2^15 simple graphs on 6 nodes with a fixed 3-value weight pattern). A case is non-trivial when the graph has >= n edges and spanning forests of different total "
         "weight exist (minimum != maximum spanning forest weight) and it is either connected (tree clause) or has >=2 "
-        "components that contain an edge (forest / INFEASIBLE clause). Distinct = canonical JSON of the description."
+        "components that contain an edge (forest / INFEASIBLE clause). In 1/8 of the kruskal-only cases the graph is "
+        "shifted to node ids >= 247 of a 258..320-node index graph (ids computed at run time = distinct int objects "
+        "beyond the small-int cache), low ids isolated or chained by a path. Distinct = canonical JSON of the description."
     ),
     "assumptions": [
         "reference Kruskal on Fractions (cross-checked in vf.selftest against brute force over all (n-c)-edge subsets for n<=6 "
@@ -49,7 +51,7 @@ META = {
     ],
 }
 
-NSCHEMES = 6
+NSCHEMES = 7
 
 
 def lab(scheme, i):
@@ -64,7 +66,9 @@ def lab(scheme, i):
         return frozenset({i, i + 100})
     if scheme == 4:  # mixed, mutually non-comparable kinds
         return [i, f"v{i}", (i, "x"), frozenset({i}), i + 0.5, bytes([65 + i])][i % 6]
-    return 7 * i - 20  # negative and non-contiguous ints
+    if scheme == 5:
+        return 7 * i - 20  # negative and non-contiguous ints
+    return 1000 + 13 * i  # ints beyond the interpreter's small-int cache: every call makes a new, equal object
 
 
 # ----------------------------------------------------------------------------- generator
@@ -98,7 +102,7 @@ WMODES = ["palette3", "palette3", "int", "neg", "dyadic", "mixed"]
 
 
 @st.composite
-def graphs(draw, tier="quick", salt=False):
+def graphs(draw, tier="quick", salt=False, large=False):
     nmax = 11 if tier == "thorough" else 8
     if salt:  # the sub-checks share worker seeds; one extra draw decorrelates their example streams
         draw(st.integers(0, 2**16))
@@ -217,7 +221,14 @@ def graphs(draw, tier="quick", salt=False):
     edges = [[v, u, c] if f else [u, v, c] for (u, v, c), f in zip(edges, flips)]
     if 1 < len(edges):
         edges = [list(e) for e in draw(st.permutations(edges))]
+    extra = {}
+    sel = draw(st.integers(0, 7999)) if large else 0  # wide range + modulo: Hypothesis over-samples small integers
+    if sel % 8 == 3:
+        # kruskal only: the graph lives on node ids offset..offset+n-1 of a 258..320-node index graph (ids beyond
+        # CPython's cached small ints, computed at run time), nodes below the offset are isolated or chained up
+        extra = {"offset": draw(st.integers(258 - n, 320 - n)), "chain": draw(st.integers(-2, 3)) if (sel // 8) % 2 == 0 else None}
     return {
+        **extra,
         "n": n,
         "edges": edges,
         "family": family,
@@ -373,7 +384,7 @@ def build_prim_graph(desc, info):
     graph = {}
     for i in desc["key_order"]:
         if i not in keyless:
-            row = [(L[j], w) for j, w in rows[i]]
+            row = [(lab(sch, j), w) for j, w in rows[i]]  # a fresh (equal, not identical) label object per occurrence
             graph[L[i]] = tuple(row) if desc["adj_tuple"] else row
     return graph, L
 
@@ -390,7 +401,7 @@ def check_prim(desc, ctx, info):
         raise AssertionError("label scheme collision")
     ctx.label(f"labels-{desc['scheme']}", desc["keyless"] and "neighbour-only-node", desc["adj_tuple"] and "tuple-rows")
     want = "OPTIMAL" if info["connected"] else "INFEASIBLE"
-    starts = [("default", None)] + [(i, L[i]) for i in desc["key_order"] if L[i] in graph]
+    starts = [("default", None)] + [(i, lab(desc["scheme"], i)) for i in desc["key_order"] if L[i] in graph]
     results = []
     for tag, s in starts:
         frozen = {k: tuple(v) for k, v in graph.items()}
@@ -422,7 +433,22 @@ def agree(info, kres, pres):
             raise Violation("agree:kruskal-vs-prim", {"kruskal": repr(k.objective), "prim": repr(p.objective)})
 
 
+def expand_large(desc, ctx):
+    """Shift the graph to node ids offset.. of an index graph with n+offset nodes (kruskal only).  Every endpoint is
+    the result of an addition done here, at run time, so equal ids are distinct int objects once they exceed 256."""
+    off = int(desc.get("offset") or 0)
+    if off <= 0:
+        return desc
+    edges = [[u + off, v + off, w] for u, v, w in desc["edges"]]
+    cw = desc.get("chain")
+    if cw is not None:  # path 0-1-..-offset: connects the low ids with the first shifted node
+        edges += [[i, i + 1, cw] for i in range(off)]
+    ctx.label("large-ids", "large-ids-chained" if cw is not None else "large-ids-isolated-low-nodes")
+    return {**desc, "n": desc["n"] + off, "edges": edges}
+
+
 def run_kruskal(desc, ctx):
+    desc = expand_large(desc, ctx)
     info = analyse(desc, ctx)
     check_kruskal(desc, ctx, info)
 
@@ -435,7 +461,7 @@ def run_prim(desc, ctx):
 
 
 SUBS = [
-    Sub("kruskal", run_kruskal, strategy=lambda tier: graphs(tier, salt=True), quick=1500, thorough=8000, workers_quick=4),
+    Sub("kruskal", run_kruskal, strategy=lambda tier: graphs(tier, salt=True, large=True), quick=1500, thorough=8000, workers_quick=4),
     Sub("prim", run_prim, strategy=lambda tier: graphs(tier), quick=1500, thorough=8000, workers_quick=4),
     Sub("small-exhaustive", run_prim, enumerate=small_graphs, workers_quick=4),
 ]
